@@ -1,7 +1,7 @@
 """Shared pieces of the per-property modules: traffic targets, perturbations, comparison helpers."""
 import json
 
-from .. import gen, model, real, world
+from .. import gen, model, real, synth, world  # noqa: F401 - synth installs its layouts at import: always, not when first used
 from ..layout import layout
 
 REAL_DECODER = ["tpmstream.io.binary.marshal (decoder, strict and warn mode)", "tpmstream.common.constraints",
